@@ -940,8 +940,8 @@ def gen_api():
                 if mode == 'par2' and term in ('collect_vec', 'collect', 'collect_x') and not flat:
                     shapes = [(2, 1, (1, 0), 'quick'), (3, 1, (1, 0, 1), 'thorough')]
                 for (n, c, owner, tier) in shapes:
-                    if (mode, chain, term) in INTRACTABLE:
-                        continue
+                    if (mode, chain, term) in INTRACTABLE or (mode == 'seq' and term == 'collect_x'):
+                        continue  # (sequential collect_x converts through two SplitVec growth strategies: > 16 GB)
                     # composed-closure chains: collect_vec (order) and count (cheapest must-visit terminal, for the call logs)
                     if not (term in ('collect_vec', 'count') or chain in BASE_CHAINS):
                         continue
